@@ -97,6 +97,10 @@ def programs(tier, seed):
     # async: handler futures
     alist = [("join_async", (1, 1), "then", None, None, False), ("try_join_async", (1, 1), "and_then", 0, None, False), ("try_join_async", (1, 1), "map", 1, None, False),
              ("join_async", (1, 1), "then", 1, None, True), ("try_join_async", (1,), "and_then", None, None, True)]
+    # single-branch programs: the handler is applied to a bare value, not to a tuple (every kind x legal handler kind)
+    alist += [("try_join_async", (1,), "map", None, None, False), ("try_join_async", (2,), "map", 0, None, False), ("try_join_async_spawn", (1,), "map", None, None, False),
+              ("try_join_async_spawn", (1,), "and_then", 0, None, False), ("join_async", (1,), "then", None, None, False), ("join_async_spawn", (1,), "then", 0, None, False),
+              ("join_async_spawn", (1, 1), "then", 1, None, False), ("try_join_async_spawn", (1, 1), "map", None, None, False)]
     if tier == "thorough":
         alist += [("try_join_async", (1, 1), "and_then", 1, 1, True), ("join_async", (2, 1), "then", 0, 1, True), ("try_join_async", (2, 1), "map", None, 1, False),
                   ("join_async_spawn", (1, 1), "then", None, 1, True), ("try_join_async_spawn", (1, 1), "and_then", None, 1, True), ("try_join_async_spawn", (1, 1), "map", 0, None, False),
